@@ -239,31 +239,31 @@ theorem PlainObj.delete_at {pp : PP} (P : PlainObj pp) (sec : Section) (hs : sec
         pp'.extFlags = pp.extFlags ∧ pp'.maxPayload = pp.maxPayload ∧
         pp'.offsetEdns = (if optLt c.offset pp.offsetEdns then pp.offsetEdns.map (fun x => shiftNat x (-(Int.ofNat rc.length))) else pp.offsetEdns)) ∧
       (get16 pp.packet ne = 41 → pp'.ednsCount = 0 ∧ pp'.extRcode = none ∧ pp'.ednsVersion = none ∧
-        pp'.extFlags = none ∧ pp'.maxPayload = 512 ∧ pp'.offsetEdns = none) := by
+        pp'.extFlags = none ∧ pp'.maxPayload = 512 ∧ pp'.offsetEdns = none) ∧ pp'.cached = none := by
   obtain ⟨h1, h2, h3⟩ := hr.pos_len
   simp only at h1 h2 h3
   have hrc : 0 < rc.length := by omega
   cases sec with
   | answer =>
     simp only [PlainObj.lst, PlainObj.start] at hsplit hoff hnext hr ⊢
-    obtain ⟨pp', P', hrun, e1, e2, e3, e4, e5, e6, g1, g2, g3, g4, g5, g6⟩ := delete_answer P ps1 ps2 rc hsplit hrc c hoff hnext
+    obtain ⟨pp', P', hrun, e1, e2, e3, e4, e5, e6, g1, g2, g3, g4, g5, g6, g7⟩ := delete_answer P ps1 ps2 rc hsplit hrc c hoff hnext
     have h41 : get16 pp.packet ne ≠ 41 := by
       intro h
       have := hr.2.2.2.2
       simp only [h, if_true] at this
       exact absurd this.1 (by decide)
-    refine ⟨pp', P', hrun, e1, ?_, e4, e5, e6, fun _ => ⟨g1, g2, g3, g4, g5, g6⟩, fun h => absurd h h41⟩
+    refine ⟨pp', P', hrun, e1, ?_, e4, e5, e6, fun _ => ⟨g1, g2, g3, g4, g5, g6⟩, fun h => absurd h h41, g7⟩
     intro s hs'
     cases s <;> simp_all [PlainObj.lst]
   | nameServers =>
     simp only [PlainObj.lst, PlainObj.start] at hsplit hoff hnext hr ⊢
-    obtain ⟨pp', P', hrun, e1, e2, e3, e4, e5, e6, g1, g2, g3, g4, g5, g6⟩ := delete_authority P ps1 ps2 rc hsplit hrc c hoff hnext
+    obtain ⟨pp', P', hrun, e1, e2, e3, e4, e5, e6, g1, g2, g3, g4, g5, g6, g7⟩ := delete_authority P ps1 ps2 rc hsplit hrc c hoff hnext
     have h41 : get16 pp.packet ne ≠ 41 := by
       intro h
       have := hr.2.2.2.2
       simp only [h, if_true] at this
       exact absurd this.1 (by decide)
-    refine ⟨pp', P', hrun, e2, ?_, e4, e5, e6, fun _ => ⟨g1, g2, g3, g4, g5, g6⟩, fun h => absurd h h41⟩
+    refine ⟨pp', P', hrun, e2, ?_, e4, e5, e6, fun _ => ⟨g1, g2, g3, g4, g5, g6⟩, fun h => absurd h h41, g7⟩
     intro s hs'
     cases s <;> simp_all [PlainObj.lst]
   | additional =>
@@ -271,9 +271,9 @@ theorem PlainObj.delete_at {pp : PP} (P : PlainObj pp) (sec : Section) (hs : sec
     have hty : c.rrType pp.packet = .ok (get16 pp.packet ne) := by
       rw [← hne]
       exact rrType_at hoff (by rw [hne]; omega)
-    obtain ⟨pp', P', hrun, e1, e2, e3, e4, e5, e6, g1, g2, g3, g4, g5, g6⟩ :=
+    obtain ⟨pp', P', hrun, e1, e2, e3, e4, e5, e6, g1, g2, g3, g4, g5, g6, g7⟩ :=
       delete_additional P ps1 ps2 rc hsplit hrc c _ hty hoff hnext
-    refine ⟨pp', P', hrun, e3, ?_, e4, e5, e6, ?_, ?_⟩
+    refine ⟨pp', P', hrun, e3, ?_, e4, e5, e6, ?_, ?_, g7⟩
     · intro s hs'
       cases s <;> simp_all [PlainObj.lst]
     · intro h41
